@@ -81,7 +81,49 @@ def replay_double_signal():
             if rc < 0:
                 return {"reproduced": True, "exit_status": rc, "signals": [int(first), int(second)],
                         "why": "process was killed by the second signal"}
-        return {"reproduced": False, "why": "process exited by itself after two signals in a row"}
+        # an edit run: the second signal must not end the process before the lock covers what was written
+        import glob
+        import re as _re
+        with open(os.path.join(d, "Breadlog.yaml"), "w") as f:
+            f.write("source_dir: src\nuse_cache: true\nrust:\n  log_macros:\n    - module: log\n      name: info\n")
+        lock = os.path.join(d, "Breadlog.lock")
+        for first, second in ((signal.SIGINT, signal.SIGTERM), (signal.SIGTERM, signal.SIGINT)):
+            for fn in glob.glob(os.path.join(d, "src", "*.rs")):
+                with open(fn, "w") as f:
+                    f.write('fn f(){ info!("a"); }\n')
+            with open(lock, "w") as f:
+                f.write("next_reference_id: 1\n")
+            p = subprocess.Popen([binary, "--config", os.path.join(d, "Breadlog.yaml")], stdout=subprocess.DEVNULL,
+                                 stderr=subprocess.DEVNULL)
+            t0 = time.time()
+            probe = [os.path.join(d, "src", "f%d.rs" % i) for i in range(0, 6000, 50)]
+            started = False
+            while time.time() - t0 < 30 and p.poll() is None and not started:
+                for fn in probe:
+                    try:
+                        if "[ref:" in open(fn).read():
+                            started = True
+                            break
+                    except OSError:
+                        pass
+            if p.poll() is None:
+                p.send_signal(first)
+                p.send_signal(second)
+            rc = p.wait(timeout=300)
+            if rc < 0:
+                return {"reproduced": True, "exit_status": rc, "signals": [int(first), int(second)],
+                        "why": "edit run was killed by the second signal"}
+            ids = []
+            for fn in glob.glob(os.path.join(d, "src", "*.rs")):
+                ids += [int(x) for x in _re.findall(r"\[ref: (\d+)\]", open(fn).read())]
+            m = _re.search(r"next_reference_id:\s*(\d+)", open(lock).read()) if os.path.exists(lock) else None
+            nxt = int(m.group(1)) if m else None
+            if ids and (nxt is None or nxt <= max(ids)):
+                return {"reproduced": True, "exit_status": rc, "signals": [int(first), int(second)],
+                        "ids_written": len(ids), "max_id": max(ids), "lock_next": nxt,
+                        "why": "after two signals in a row the edit run ended (status %d) with ids up to %d on disk and the lock at %s: "
+                               "the second signal ended the process before the lock was written" % (rc, max(ids), nxt)}
+        return {"reproduced": False, "why": "process exited by itself after two signals in a row, the lock covering every id written"}
     finally:
         shutil.rmtree(d, ignore_errors=True)
 
@@ -230,6 +272,14 @@ def replay(prop, r):
             want = [b(text, p) for p in exp["positions"]]
             info["expected_positions"] = want
             info["reproduced"] = poss != want
+            if not info["reproduced"] and exp.get("kinds"):
+                info["expected_kinds"] = exp["kinds"]
+                info["real_kinds"] = [e["kind"] for e in ents]
+                info["reproduced"] = info["real_kinds"] != exp["kinds"]
+            if not info["reproduced"] and exp.get("tokens"):
+                info["expected_tokens"] = exp["tokens"]
+                info["real_tokens"] = [e["token7"] for e in ents]
+                info["reproduced"] = any(w is not None and w != g for w, g in zip(exp["tokens"], info["real_tokens"]))
         elif kind == "existing_ref":
             want = b(text, exp["pos"])
             n = int(text[exp["pos"]:exp["pos"] + exp["digits"]])
